@@ -19,8 +19,9 @@ PROP = "C13"
 RULE = ("cases: 1-D (axis=None), 2-D on both axes, N-D flattened, 3-D batches with axis=0 (the configurator's use; result[b] must be "
         "the 2-D result of slice b); ties, negative entries, all-zero rows and columns, up to 60 distinct levels, values up to 1e6. "
         "non-trivial: >=2 distinct non-zero keys; distinct by digest of (method, axis, array)")
-BUDGET = {"quick": (8, 500, 60), "thorough": (16, 8000, 900)}
+BUDGET = {"quick": (12, 1000, 90), "thorough": (16, 8000, 1200)}
 METHODS = ["shadow", "prio", "rank", "first", "last", "min", "max"]
+PYTEST = True     # thorough tier also runs the repository's own tests under these monitors
 MANDATORY = ["judged:" + m for m in METHODS] + ["count:ndim:1", "count:ndim:2:axis0", "count:ndim:2:axis1", "count:ndim:3:axis0",
                                                  "count:shadow:levels>=20", "count:shadow:out-of-64-bit-scope"]
 
